@@ -92,6 +92,9 @@ class HRNP(BytesInterface):
             checksum=data[10:12],
             data=data[12:hrnp_packet_len],
         )
+        if hrnp.checksum_correct:
+            # the checksum covers the length field, which the constructor recomputes from the payload
+            hrnp.checksum_correct = hrnp_packet_len == len(hrnp)
         if hrnp.checksum_correct and hrnp.has_data():
             # the constructor verifies the checksum over the re-serialised payload, which
             # silently heals e.g. a corrupted HDAP checksum byte, received bytes must match it
